@@ -400,7 +400,13 @@ Proof. exact stripe_block_cond_necessary. Qed.
 
 (* ---------- histories: every kernel entered along ANY sequence of safe API calls is safe ----------
    (the state records what the guards read: lengths, row counts, wrap rows; FpHistory.v)
-   PARTIAL as the rest of the file: a statement about the footprint model. *)
+   PARTIAL as the rest of the file: a statement about the footprint model.
+   NOTE (review round 3): hwf / hop_wf only say that the components are non-negative, so this holds from ANY such
+   state: it is the conjunction of the per-kernel theorems (safety relative to the guards each wrapper evaluates)
+   and carries no invariant; the transitions of the history model are verified by no theorem here, only compared
+   with the implementation per op by the driver (DIFF).  The inductive statement — an invariant (rows <= capacity
+   for every matrix, shape of the sequence matrix) preserved by every transition, every access inside the allocation
+   as it is at that step — is C06b.v: C06_histories_invariant_partial. *)
 Theorem C06_histories_partial : forall K pstF pstU ops s,
   layout_ok 4 K pstF -> layout_ok 1 K pstU ->
   hwf s -> Forall hop_wf ops ->
